@@ -592,6 +592,7 @@ fn rec_bodies(holes: &[E]) -> Vec<E> {
         out.push(h.clone());
         out.push(op(Op::Any, vec![h.clone(), str_()]));
         out.push(app("w", vec![h.clone()]));
+        out.push(app("i", vec![h.clone()]));
         out.push(content(h.clone()));
     }
     for h1 in holes {
@@ -613,7 +614,7 @@ pub fn f6(n: usize, full: bool) -> Fragment {
     let total = bodies.len().pow(n as u32);
     for i in 0..total {
         let mut k = i;
-        let mut st = vec![wrapper.clone()];
+        let mut st = vec![wrapper.clone(), fun("i", &["x"], var("x"))];
         for name in names[..n].iter() {
             st.push(let_(name, bodies[k % bodies.len()].clone()));
             k /= bodies.len();
